@@ -217,10 +217,18 @@ func VerifDecimalB() {
 		r1 := x.Cmp(&y)
 		r2 := y.Cmp(&x)
 		verifAssert(r1 == -r2, "C15.levelb.cmp.antisym")
+		if x.Exponent == y.Exponent && !x.Negative && !y.Negative {
+			// equal exponents, both non-negative: the order of the coefficients, whatever their representation
+			verifAssert(int64(r1) == verifRefScalar("cmp", sx, sy), "C15.levelb.cmp.value")
+		}
+		if x.Exponent == y.Exponent && x.Negative == y.Negative && verifRefScalar("cmp", sx, sy) == 0 {
+			verifAssert(x.CmpTotal(&y) == 0, "C15.levelb.total.identical")
+		}
 		_ = x.CmpTotal(&y)
 		ok := verifAnd(verifBigUnchanged(&x.Coeff, sx), verifBigUnchanged(&y.Coeff, sy))
 		verifAssert(ok, "C18.dec.cmp.operand_written")
 		verifAssert(ok, "C16.dec.cmp.operand_unchanged")
+		verifAssert(ok, "C06.dec.cmp.operand_modified")
 	case "reduce", "reduce_inplace":
 		var x, d Decimal
 		sx := coeff("x", &x)
